@@ -20,6 +20,22 @@ theorem Reach.mono {sp : Spec} {H H' : Sys → Action → Prop} (h : ∀ s a, H 
   | init => exact .init
   | step _ ha hs ih => exact .step ih (h _ _ ha) hs
 
+/-- a step of the utxo nursery only changes the nursery store. -/
+theorem nurseryStep_only {sp : Spec} {s s' : Sys} {k : Nat} (h : nurseryStep sp s k = some s') :
+    ∃ n, s' = { s with nursery := n } := by
+  unfold nurseryStep at h
+  split at h
+  · split at h
+    · cases h; exact ⟨_, rfl⟩
+    · cases h
+  · split at h
+    · split at h
+      · cases h; exact ⟨_, rfl⟩
+      · cases h
+    · split at h
+      · cases h; exact ⟨_, rfl⟩
+      · cases h
+
 /-! ### every upstream resolution is justified by an observed chain fact -/
 
 /-- a delivered resolution `(idx, settle)` is justified when it is one of the arbitrator's own
@@ -275,6 +291,10 @@ theorem step_msgsOk {sp : Spec} {s s' : Sys} {a : Action} (h : MsgsOk sp s)
     · refine resApply_msgsOk h (fun ms rec pc he => ?_) hs
       rw [resAlt_put_msgs he]; intro m hm; simp at hm
   | crash => simp only [step, restart] at hs; cases hs; exact h
+  | nursery k =>
+    simp only [step] at hs
+    obtain ⟨n, rfl⟩ := nurseryStep_only hs
+    exact h
   | fact f =>
     simp only [step] at hs; cases hs
     intro m hm; exact justified_add f (h m hm)
@@ -768,6 +788,10 @@ theorem step_inv {sp : Spec} {s s' : Sys} {a : Action} (h : Inv s) (hs : step sp
       obtain ⟨hr, hk⟩ := find?_key hf
       exact resApply_inv h hr hk (fun ms rec pc he => resAlt_put_facts he) hs
   | crash => simp only [step] at hs; cases hs; exact restart_inv h
+  | nursery k =>
+    simp only [step] at hs
+    obtain ⟨n, rfl⟩ := nurseryStep_only hs
+    exact ⟨h.memEq, h.pre, h.act, h.done, h.closedPc, h.bc⟩
   | fact f =>
     simp only [step] at hs; cases hs
     exact ⟨h.memEq, h.pre, h.act, h.done, h.closedPc, h.bc⟩
@@ -957,6 +981,10 @@ theorem step_invCC {sp : Spec} {s s' : Sys} {a : Action} (hi : Inv s) (h : InvCC
     simp only [step] at hs; cases hs
     refine ⟨h.freshStored, h.noneResolved, ?_⟩
     intro hpc; simp only [restart] at hpc; split at hpc <;> simp at hpc
+  | nursery k =>
+    simp only [step] at hs
+    obtain ⟨n, rfl⟩ := nurseryStep_only hs
+    exact ⟨h.freshStored, h.noneResolved, h.wipePc⟩
   | fact f => simp only [step] at hs; cases hs; exact ⟨h.freshStored, h.noneResolved, h.wipePc⟩
   | forceClose =>
     simp only [step] at hs
@@ -1449,6 +1477,10 @@ theorem step_invK {sp : Spec} (hcoop : sp.CoopClean) {s s' : Sys} {a : Action} (
     · cases hs
     · exact resApply_invK h hs
   | crash => simp only [step] at hs; cases hs; exact restart_invK h hH
+  | nursery k =>
+    simp only [step] at hs
+    obtain ⟨n, rfl⟩ := nurseryStep_only hs
+    exact ⟨h.k1, h.k2, h.k3, h.k4, h.k5, h.k6, h.k7, h.k8, h.k9, h.k10⟩
   | fact f =>
     simp only [step] at hs; cases hs
     exact ⟨h.k1, h.k2, h.k3, h.k4, h.k5, h.k6, h.k7, h.k8, h.k9, h.k10⟩
